@@ -27,3 +27,17 @@ package consumer
 //@ func AppModule.OnRecvPacket
 //@ requires am.keeper != nil
 //@ precall OnRecvVSCPacket [this-packet] $OnRecvVSCPacket.packet == packet && $OnRecvVSCPacket.newChanges == data && ack.Success()
+
+// ---------------------------------------------------------------- C17: the consumer's side of the CCV channel
+
+//@ func AppModule.OnChanOpenInit
+//@ ensures [no-second-channel] old(am.keeper.GetProviderChannel(ctx)).1 ==> result1 != nil
+//@ ensures [params] result1 == nil ==> order == channeltypes.ORDERED && portID == am.keeper.GetPort(ctx) && counterparty.PortId == types.ProviderPortID && result0 == types.Version
+//@ ensures [over-the-provider-client] result1 == nil ==> $VerifyProviderChain.called && $VerifyProviderChain.connectionHops == connectionHops && $VerifyProviderChain.ret == nil
+//@ ensures [binds-nothing] S == old(S) && E == old(E) && X == old(X)
+
+//@ func AppModule.OnChanOpenTry
+//@ ensures [consumer-never-accepts-a-try] result1 != nil && S == old(S) && E == old(E) && X == old(X)
+
+//@ func AppModule.OnChanOpenAck
+//@ ensures [no-second-channel] old(am.keeper.GetProviderChannel(ctx)).1 ==> result != nil && S == old(S) && E == old(E) && X == old(X)
